@@ -760,8 +760,18 @@ def run_property(mod, argv=None):
         'wall_s': wall,
         'violations': len(confirmed),
     }
-    os.makedirs(EVIDENCE_DIR, exist_ok=True)
-    json.dump(evidence, open(os.path.join(EVIDENCE_DIR, '%s.json' % pid), 'w'), indent=1, default=str)
+    if args.part:
+        # a run restricted to one part is a development aid: it must not replace the evidence of the whole check
+        edir = os.path.join(VERIF, 'out', 'evidence-partial')
+        os.makedirs(edir, exist_ok=True)
+        json.dump(evidence, open(os.path.join(edir, '%s.json' % pid), 'w'), indent=1, default=str)
+    else:
+        os.makedirs(EVIDENCE_DIR, exist_ok=True)
+        json.dump(evidence, open(os.path.join(EVIDENCE_DIR, '%s.json' % pid), 'w'), indent=1, default=str)
+        if tier == 'thorough':
+            # kept next to the per-change (quick) evidence, which the next quick run rewrites
+            os.makedirs(os.path.join(EVIDENCE_DIR, 'thorough'), exist_ok=True)
+            json.dump(evidence, open(os.path.join(EVIDENCE_DIR, 'thorough', '%s.json' % pid), 'w'), indent=1, default=str)
 
     for kid, hit in known_hits.items():
         print('KNOWN-FINDING: property=%s %s [%s; %d paths]' % (pid, hit['entry']['what'], kid, hit['count']))
